@@ -77,6 +77,7 @@ func handleExtensionsInits(p *Params) gqlerrors.FormattedErrors {
 // handleExtensionsParseDidStart runs the ParseDidStart functions for each extension
 func handleExtensionsParseDidStart(p *Params) ([]gqlerrors.FormattedError, parseFinishFuncHandler) {
 	fs := map[string]ParseFinishFunc{}
+	names := []string{}
 	errs := gqlerrors.FormattedErrors{}
 	for _, ext := range p.Schema.extensions {
 		var (
@@ -93,12 +94,16 @@ func handleExtensionsParseDidStart(p *Params) ([]gqlerrors.FormattedError, parse
 			ctx, finishFn = ext.ParseDidStart(p.Context)
 			// update context
 			p.Context = ctx
+			if _, seen := fs[ext.Name()]; !seen {
+				names = append(names, ext.Name())
+			}
 			fs[ext.Name()] = finishFn
 		}()
 	}
 	return errs, func(err error) []gqlerrors.FormattedError {
 		errs := gqlerrors.FormattedErrors{}
-		for name, fn := range fs {
+		for _, name := range names {
+			fn := fs[name]
 			func() {
 				// catch panic from a finishFn
 				defer func() {
@@ -116,6 +121,7 @@ func handleExtensionsParseDidStart(p *Params) ([]gqlerrors.FormattedError, parse
 // handleExtensionsValidationDidStart notifies the extensions about the start of the validation process
 func handleExtensionsValidationDidStart(p *Params) ([]gqlerrors.FormattedError, validationFinishFuncHandler) {
 	fs := map[string]ValidationFinishFunc{}
+	names := []string{}
 	errs := gqlerrors.FormattedErrors{}
 	for _, ext := range p.Schema.extensions {
 		var (
@@ -132,12 +138,16 @@ func handleExtensionsValidationDidStart(p *Params) ([]gqlerrors.FormattedError, 
 			ctx, finishFn = ext.ValidationDidStart(p.Context)
 			// update context
 			p.Context = ctx
+			if _, seen := fs[ext.Name()]; !seen {
+				names = append(names, ext.Name())
+			}
 			fs[ext.Name()] = finishFn
 		}()
 	}
 	return errs, func(errs []gqlerrors.FormattedError) []gqlerrors.FormattedError {
 		extErrs := gqlerrors.FormattedErrors{}
-		for name, finishFn := range fs {
+		for _, name := range names {
+			finishFn := fs[name]
 			func() {
 				// catch panic from a finishFn
 				defer func() {
@@ -155,6 +165,7 @@ func handleExtensionsValidationDidStart(p *Params) ([]gqlerrors.FormattedError, 
 // handleExecutionDidStart handles the ExecutionDidStart functions
 func handleExtensionsExecutionDidStart(p *ExecuteParams) ([]gqlerrors.FormattedError, executionFinishFuncHandler) {
 	fs := map[string]ExecutionFinishFunc{}
+	names := []string{}
 	errs := gqlerrors.FormattedErrors{}
 	for _, ext := range p.Schema.extensions {
 		var (
@@ -171,12 +182,16 @@ func handleExtensionsExecutionDidStart(p *ExecuteParams) ([]gqlerrors.FormattedE
 			ctx, finishFn = ext.ExecutionDidStart(p.Context)
 			// update context
 			p.Context = ctx
+			if _, seen := fs[ext.Name()]; !seen {
+				names = append(names, ext.Name())
+			}
 			fs[ext.Name()] = finishFn
 		}()
 	}
 	return errs, func(result *Result) []gqlerrors.FormattedError {
 		extErrs := gqlerrors.FormattedErrors{}
-		for name, finishFn := range fs {
+		for _, name := range names {
+			finishFn := fs[name]
 			func() {
 				// catch panic from a finishFn
 				defer func() {
@@ -194,6 +209,7 @@ func handleExtensionsExecutionDidStart(p *ExecuteParams) ([]gqlerrors.FormattedE
 // handleResolveFieldDidStart handles the notification of the extensions about the start of a resolve function
 func handleExtensionsResolveFieldDidStart(exts []Extension, p *executionContext, i *ResolveInfo) ([]gqlerrors.FormattedError, resolveFieldFinishFuncHandler) {
 	fs := map[string]ResolveFieldFinishFunc{}
+	names := []string{}
 	errs := gqlerrors.FormattedErrors{}
 	for _, ext := range p.Schema.extensions {
 		var (
@@ -210,12 +226,16 @@ func handleExtensionsResolveFieldDidStart(exts []Extension, p *executionContext,
 			ctx, finishFn = ext.ResolveFieldDidStart(p.Context, i)
 			// update context
 			p.Context = ctx
+			if _, seen := fs[ext.Name()]; !seen {
+				names = append(names, ext.Name())
+			}
 			fs[ext.Name()] = finishFn
 		}()
 	}
 	return errs, func(val interface{}, err error) []gqlerrors.FormattedError {
 		extErrs := gqlerrors.FormattedErrors{}
-		for name, finishFn := range fs {
+		for _, name := range names {
+			finishFn := fs[name]
 			func() {
 				// catch panic from a finishFn
 				defer func() {
